@@ -1,0 +1,65 @@
+//! Verification seams.
+//!
+//! This module is compiled only with `--cfg jsonlogic_rs_verif`. It gives a
+//! deterministic simulator two places to stand:
+//!
+//! * `yield_point(site)` is called once per rule node parsed and once per
+//!   node evaluated, so a scheduler that owns the caller threads can decide
+//!   who runs next at each of them;
+//! * `emit(args, newline)` receives everything the `log` operator hands to
+//!   `print!` / `println!`, so the simulator can own the output sink.
+//!
+//! With nothing installed both are transparent: `yield_point` returns at
+//! once and `emit` forwards to the real `print!` / `println!`.
+
+use std::fmt;
+use std::sync::OnceLock;
+
+/// Scheduling-point callback; `site` names the call site.
+pub type YieldFn = fn(&'static str);
+/// Output callback; receives the formatted text, including the trailing
+/// newline when the caller used `println!`.
+pub type EmitFn = fn(&str);
+
+static YIELD_FN: OnceLock<YieldFn> = OnceLock::new();
+static EMIT_FN: OnceLock<EmitFn> = OnceLock::new();
+
+/// Install the callbacks. Each slot can be written once per process; a
+/// second call for an already filled slot is ignored and reported by the
+/// returned flag being `false`.
+pub fn install(yield_fn: Option<YieldFn>, emit_fn: Option<EmitFn>) -> bool {
+    let mut fresh = true;
+    if let Some(f) = yield_fn {
+        fresh &= YIELD_FN.set(f).is_ok();
+    }
+    if let Some(f) = emit_fn {
+        fresh &= EMIT_FN.set(f).is_ok();
+    }
+    fresh
+}
+
+#[inline]
+pub fn yield_point(site: &'static str) {
+    if let Some(f) = YIELD_FN.get() {
+        f(site)
+    }
+}
+
+pub fn emit(args: fmt::Arguments, newline: bool) {
+    match EMIT_FN.get() {
+        Some(f) => {
+            let mut text = fmt::format(args);
+            if newline {
+                text.push('\n');
+            }
+            f(&text)
+        }
+        None => {
+            if newline {
+                std::println!("{}", args)
+            } else {
+                std::print!("{}", args)
+            }
+        }
+    }
+}
